@@ -1,4 +1,5 @@
 import Woodpile.Driver.Util
+import Woodpile.Driver.IterScript
 import Woodpile.Model.RoughTlv
 import Woodpile.Gen.Consts
 
@@ -6,7 +7,8 @@ import Woodpile.Gen.Consts
 Model drivers for the families `tlv` (C11) and `tlvview` (C12).
 
 `tlvview`:  `I view <hex> <lookups>`  — `MessageView::new` on the bytes and then
-every accessor (see `viewObs`).
+every accessor (see `viewObs`);  `I viewit <iter|tags> <hex> <script>` — an iterator-protocol
+script (`Model/IterScript.lean`) on what `iter()` / `tags().iter()` yield.
 
 `tlv`:  `I msg <ctor> <vt> <items>` builds a `MessageWrapper` into the next slot
 (`ctor` ∈ new|sorted|slice; `vt` names the Rust value type and is only
@@ -78,7 +80,28 @@ def viewObsOrPanic (d : List UInt8) (lookups : List Nat) : List String :=
 
 /-! ### Family `tlvview` -/
 
+/-- `viewit <iter|tags> <hex> <script>`: an iterator-protocol script on the list `iter()` yields
+(forward only) or on the tags (a slice iterator: double-ended, exact size). -/
+def viewItObs (src : String) (d : List UInt8) (steps : List Woodpile.IterScript.Step) : List String :=
+  match View.new d with
+  | none => ["panic"]
+  | some (.error e) => ["new err " ++ errStr e]
+  | some (.ok v) =>
+    if src = "iter" then
+      match v.iter with
+      | none => ["panic"]
+      | some ps => [IterScriptText.scriptObs (ps.map pairStr) steps false]
+    else
+      match v.tags with
+      | none => ["panic"]
+      | some ts => [IterScriptText.scriptObs (ts.map toString) steps true]
+
 def viewStep (s : Unit) : List String → Unit × List String
+  | ["viewit", src, hex, script] =>
+    if src ≠ "iter" ∧ src ≠ "tags" then (s, ["bad-op"]) else
+    match parseHex hex, IterScriptText.parseScript script with
+    | some d, some steps => (s, viewItObs src d steps)
+    | _, _ => (s, ["bad-op"])
   | ["view", hex, lk] =>
     match parseHex hex, parseNatList lk with
     | some d, some lookups =>
